@@ -384,9 +384,11 @@ def run(chk, facts, tier, only=None):
                         grew = True
             consulted = [x for x in walk(tn["body"]) if x.get("k") == "mcall" and x["m"] in ("contains_key", "get", "get_mut", "entry", "insert", "contains")
                          and (expr_path(x["recv"]) or "").startswith("self.") and x.get("args") and mentions(x["args"][0], tainted)]
-            chk.expect(bool(consulted), "export-name:disambiguated-name-is-fresh",
-                       "TypeName::get makes up `<name>_<n>` for a further Rust type of the same name but never looks that string up in (or registers it "
-                       "with) its table of names: with Rust types `m1::A`, `m2::A` and `A_1` the second `A` and `A_1` are both exported as `A_1`, one "
+            looked_up = [x for x in consulted if x["m"] in ("contains_key", "get", "get_mut", "entry", "contains")]
+            entered = [x for x in consulted if x["m"] in ("insert", "entry")]
+            chk.expect(bool(looked_up) and bool(entered), "export-name:disambiguated-name-is-fresh",
+                       "TypeName::get makes up `<name>_<n>` for a further Rust type of the same name but does not both look that string up in and enter it "
+                       "into its table of names: with Rust types `m1::A`, `m2::A` and `A_1` the second `A` and `A_1` are both exported as `A_1`, one "
                        "definition overwrites the other and the exported interface is not the program's",
                        where=f"{tn['span']['file']}:{fmts[0].get('ln')}",
                        ok_detail=f"the made-up name is checked against / entered into {sorted({expr_path(x['recv']) for x in consulted})}")
